@@ -109,9 +109,15 @@ type JExecOut struct {
 }
 
 // scriptedEvalError is the error value the scripted evaluator returns; Execute must hand it back
-type scriptedEvalError struct{ t, g int }
+type scriptedEvalError struct {
+	t, g int
+	// wraps: evaluators often hand on what their own machinery reported - e.g. context.Canceled / DeadlineExceeded of a
+	// sub-context of their own while the experiment's context is alive; an evaluator error is an evaluator error
+	wraps error
+}
 
 func (e *scriptedEvalError) Error() string { return fmt.Sprintf("scripted evaluator error t=%d g=%d", e.t, e.g) }
+func (e *scriptedEvalError) Unwrap() error { return e.wraps }
 
 // recorder is evaluator + observer + turnover probe
 type recorder struct {
@@ -204,7 +210,7 @@ func (r *recorder) GenerationEvaluate(_ context.Context, pop *genetics.Populatio
 	}
 	switch r.s.evalAt(t, g) {
 	case evFail:
-		return &scriptedEvalError{t, g}
+		return &scriptedEvalError{t: t, g: g, wraps: []error{nil, context.Canceled, context.DeadlineExceeded}[(t+2*g)%3]}
 	case evSolved:
 		epoch.FillPopulationStatistics(pop)
 		epoch.Solved = true
